@@ -268,11 +268,9 @@ pub fn check(sim: &mut Sim, d: &Delivery, w: &Walk, r: &[NetflowPacket], mut bas
                         if def.is_options() {
                             continue;
                         }
-                        if sim.models[d.p].tainted.contains(&(proto, *tid)) {
+                        let _ = (proto, tid);
+                        if s.tainted {
                             skip = true;
-                        }
-                        if v9 && rs.iter().any(|r| r.fields.iter().any(|f| f.dt == Dt::ProtoT && (146..=254).contains(&f.raw[0]))) {
-                            skip = true; // listed C04 finding truncates the record list
                         }
                         if rs.iter().any(|r| r.fields.iter().any(|f| f.val.is_err())) {
                             skip = true;
